@@ -320,11 +320,22 @@ func stringLength1(context Context, args ...Result) (Result, error) {
 }
 
 func normalizeSpace0(context Context, args ...Result) (Result, error) {
-	return String(strings.TrimSpace(context.Result().String())), nil
+	return String(normalizeSpace(context.Result().String())), nil
 }
 
 func normalizeSpace1(context Context, args ...Result) (Result, error) {
-	return String(strings.TrimSpace(args[0].String())), nil
+	return String(normalizeSpace(args[0].String())), nil
+}
+
+// normalizeSpace strips leading and trailing XML whitespace (space, tab,
+// carriage return and line feed only) and replaces every internal run of it
+// with a single space.
+func normalizeSpace(str string) string {
+	isSpace := func(r rune) bool {
+		return r == ' ' || r == '\t' || r == '\r' || r == '\n'
+	}
+
+	return strings.Join(strings.FieldsFunc(str, isSpace), " ")
 }
 
 func translate(context Context, args ...Result) (Result, error) {
